@@ -102,7 +102,7 @@ def replicated_newfunc(ctx, kws, nargs, target):
         if direct:
             a, k, rid = direct[0]
             ctx.prove(a[0] is selfobj and all(x is y for x, y in zip(a[1:], args)) and len(a) == 1 + nargs and '_doApply' not in k,
-                      'C11:O11.1.doApply-arguments-passed-through')
+                      'C11+C15:O11.1.doApply-arguments-passed-through')
             ctx.prove(isinstance(ret, Opaque) and Eq(ret.id, rid), 'C02:O2.8.doApply-returns-method-result')
         return
     ctx.prove(len(direct) == 0, 'C02:O2.8.no-local-execution-on-submission')
@@ -111,7 +111,7 @@ def replicated_newfunc(ctx, kws, nargs, target):
         return
     data, callback, ctype = submitted[0]
     ctx.prove(ctype == 0, 'C02:O2.8.command-type-regular')
-    ctx.prove(isinstance(data, Pickled), 'C11:O11.1.command-is-pickled')
+    ctx.prove(isinstance(data, Pickled), 'C11+C15:O11.1.command-is-pickled')
     cmd = data.value
     user_kw = 'user' in kws
     if isinstance(cmd, tuple):
@@ -125,10 +125,10 @@ def replicated_newfunc(ctx, kws, nargs, target):
     want_name = 'myMethod' if target == 'syncobj' else None
     ctx.prove(len(names) == 1 and (names[0] == 'myMethod' if target == 'syncobj' else (isinstance(names[0], tuple) and names[0][1] == 'myMethod')),
               'C17:O17.7.name-resolved-through-the-version-table')
-    ctx.prove(len(got_args) == nargs and all(x is y for x, y in zip(got_args, args)), 'C11:O11.1.positional-arguments-intact')
-    ctx.prove(set(got_kw) == ({'user'} if user_kw else set()) and (not user_kw or got_kw['user'] is userval), 'C11+C02:O11.1.reserved-names-not-pickled',
+    ctx.prove(len(got_args) == nargs and all(x is y for x, y in zip(got_args, args)), 'C11+C15:O11.1.positional-arguments-intact')
+    ctx.prove(set(got_kw) == ({'user'} if user_kw else set()) and (not user_kw or got_kw['user'] is userval), 'C11+C02+C15:O11.1.reserved-names-not-pickled',
               info=repr(sorted(got_kw)))
-    ctx.prove(not isinstance(got_id, tuple), 'C11:O11.1.shapes-distinguishable')
+    ctx.prove(not isinstance(got_id, tuple), 'C11+C15:O11.1.shapes-distinguishable')
     is_sync = 'sync' in kws and 'callback' not in kws
     if 'callback' in kws:
         ctx.prove(callback is cb, 'C02:O2.8.user-callback-passed')
